@@ -206,7 +206,7 @@ def hs_dispatch(checks=None, n=32, only=None):
         native_units=["core/src/corelib_strings.c"],
         functions=["parseSSLHandshake", "dtlsSeenFrag", "dtlsInitFrag", "dtlsHsHashFragMsg"],
         sources=["matrixssl/sslDecode.c", "matrixssl/dtls.c"],
-        termination_loops=["dtlsHsHashFragMsg"], native_timeout_s=20,
+        termination_loops=["dtlsHsHashFragMsg"], native_timeout_s=20, cap_s=1800,
         assumptions=[
             "hs_dispatch: the per-message parsers of hsDecode.c are contract stubs (cursor anywhere in [c, end], any documented status, arbitrary next hsState); handshake-hash functions are stubs that read both ends of the range they are given; sslResetContext is a no-op",
             "hs_dispatch: RI-frag (proved preserved by the step): a DTLS reassembly in progress has fragMessage of fragLenStored bytes (16 here), 1..2 stored fragments that are non-empty, inside the buffer, pairwise disjoint, listed without holes, fragTotal = sum < fragLenStored; TLS: fragIndex < fragTotal = size of fragMessage; session-ticket pointer/length agree; record of 1..%d decrypted bytes" % n,
